@@ -59,6 +59,17 @@ CLAIMED = {
              "decided by the reference-walk oracle and the correspondence.",
         note=TTY_NOTE + "Default history back end.",
         technique="Coq proof: 'keeps the history field' calculus over the editor monad with fuel induction for every loop; symbolic execution of the recall steps; extracted-model differential check through a pty + reference-walk oracle"),
+    "C08": dict(
+        text="Theorems over the search loop of the editor model (one key, arbitrary continuation) on top of C09's search theorems: "
+             "a hit is a stored entry that contains the search text at the reported offset and is the NEAREST such entry from the "
+             "start index, inclusive, in the search direction; a typed character searches the extended text from the current "
+             "position and on a hit the line shown is that entry with the cursor at the match, on a miss nothing moves; the "
+             "search key again searches from one entry further (next nearest) and fails in place at the ends; Backspace shortens "
+             "the text without searching; Ctrl-G restores exactly the line and cursor from before the search; any other command "
+             "leaves the shown entry as the line, untouched, and is handed to the main loop. PARTIAL: whole search sessions "
+             "(composition, the prompt, undo afterwards) by the correspondence and the reference-search oracle.",
+        note=TTY_NOTE + "Default history back end.",
+        technique="Coq proof: symbolic execution of the search branch per key + C09 nearest-match theorems; extracted-model differential check through a pty + reference-search oracle"),
     "C13": dict(
         text="Theorems for every validator, editor state and text: executing Enter / C-j / C-m says Submit only if the verdict on "
              "the current text is Valid, and then text and cursor are exactly those validated; a Valid verdict does submit; "
